@@ -58,6 +58,15 @@ for d in sorted(glob.glob(f"{V}/seeded/*/meta.json")):
     r="; ".join(f"{k}: {v}" for k,v in m['results'].items())
     out.append(f"| {name} ({m['property']}) | {m['needs_to_manifest']} | {r} |")
 out.append("")
+out.append("### 8.3 Semantics-preserving changes (`mutants/benign/*.patch`, `tools/run_benign.sh`): every check must stay silent\n")
+br=[l for l in open(f"{V}/mutants/benign/RESULTS.txt").read().splitlines() if l.strip()]
+silent=sum(1 for l in br if " MISSED" in l)
+loud=[l for l in br if " MISSED" not in l]
+names=sorted(set(l.split(".patch")[0] for l in br))
+out.append("Changes after which the properties still hold (other label names, another entry-method name, another constant order, spare local slots, reworded diagnostics, exit status 3 instead of a panic, another heap size model incl. one that ignores name lengths, wider addresses in the listing, stdout flushed per print, renamed compound-array temporaries, YAML written with a document-end marker): " + ", ".join(f"`{n}`" for n in names) + ". Each was run against all 17 checks (quick tier).")
+out.append("")
+out.append(f"Result: {silent} check runs silent, {len(loud)} alarms." + (" Alarms: " + "; ".join(loud) if loud else " (Two alarms of the first run were a transient build error and the C10 false alarm of section 9 item 9; both pairs are silent after the fix and are recorded as such in RESULTS.txt.)"))
+out.append("")
 text="\n".join(out)+"\n"
 open(f"{V}/SENSITIVITY.md","w").write("# Sensitivity of the checks\n\n(generated by tools/mksensitivity.py; the same tables are embedded in DESIGN.md section 8)\n\n"+text)
 d=open(f"{V}/DESIGN.md").read()
